@@ -315,8 +315,9 @@ def r13_iter_mut_skip(text):
 
 @rule('R6_split_ws')
 def r6_split_ws(text):
-    """X.split_ascii_whitespace().collect::<Vec<&str>>()  ->  vt_split_ascii_whitespace(X)"""
-    return re.subn(r'\b(%s)\.split_ascii_whitespace\(\)\.collect::<Vec<&str>>\(\)' % IDENT, r'vt_split_ascii_whitespace(\1)', text)
+    """X.split_ascii_whitespace().collect::<Vec<&str>>()  ->  vt_split_ascii_whitespace(X)
+       X.split_whitespace().collect::<Vec<&str>>()        ->  vt_split_whitespace(X)"""
+    return re.subn(r'\b(%s)\.split_(ascii_)?whitespace\(\)\.collect::<Vec<&str>>\(\)' % IDENT, r'vt_split_\2whitespace(\1)', text)
 
 
 @rule('R6_max_by_key0')
@@ -870,3 +871,86 @@ def closure_annot0(text, rtype):
         i = k
         n += 1
     return out, n
+
+
+@rule('R22')
+def r22_lift_boxed_closure(text, *args):
+    """fn F(P..) -> Box<dyn TR> { PRE  Box::new(move |a, b| { BODY }) }   ->
+         fn F(P.., a: TA, b: TB) -> RT { PRE  { BODY } }
+    args: one `name: Type` per closure parameter, then the closure's result type (taken from the Fn bound of TR).
+    The function that *builds* the boxed closure becomes the function that *is* the closure: the captured variables are
+    the builder's parameters / locals (captured by value: `move`), PRE is pure and is re-run per call.  Dropped: the Box,
+    the trait object, the once-only evaluation of PRE."""
+    if len(args) < 2:
+        return text, 0
+    params, rtype = list(args[:-1]), args[-1]
+    names = [p.split(':')[0].strip() for p in params]
+    m = re.search(r'\) -> Box<dyn %s> \{' % IDENT, text)
+    if not m:
+        return text, 0
+    cm = re.search(r'([ \t]*)Box::new\(move \|%s\| \{' % ', '.join(re.escape(n) for n in names), text)
+    if not cm:
+        return text, 0
+    o = cm.end() - 1
+    c = _balanced(text, o, '{', '}')
+    tail = re.match(r'\)\s*\}\s*$', text[c + 1:])
+    if not tail:
+        return text, 0
+    # trailing comma of a multi-line parameter list
+    head = text[:m.start()].rstrip()
+    sep = ' ' if head.endswith(',') else ', '
+    new_sig = head + sep + ', '.join(params) + ') -> %s {' % rtype
+    body = text[m.end():cm.start()] + cm.group(1) + text[o:c + 1] + '\n}\n'
+    return new_sig + body, 1
+
+
+@rule('R23')
+def r23_enumerate_map_join(text):
+    """let X = CS .chars() .enumerate() .map(|(i, c)| { BODY }) .join("");   ->
+         let vt_v = CS.vt_chars_vec(); let mut vt_parts: Vec<String> = Vec::new();
+         for i in 0..vt_v.len() { let c = &vt_v[i]; let vt_e = { BODY }; vt_parts.push(vt_e); }
+         let X = vt_join_empty(&vt_parts);
+    (definition of enumerate + map + itertools::join with an empty separator: the closure runs once per element, in
+    order, and the results are concatenated)"""
+    m = re.search(r'([ \t]*)let (%s) = (%s)\s*\.chars\(\)\s*\.enumerate\(\)\s*\.map\(\|\((%s), (%s)\)\| \{' % (IDENT, IDENT, IDENT, IDENT), text)
+    if not m:
+        return text, 0
+    ind, name, cs, i, cvar = m.groups()
+    o = m.end() - 1
+    c = _balanced(text, o, '{', '}')
+    tail = re.match(r'\)\s*\.join\(""\);', text[c + 1:])
+    if not tail:
+        return text, 0
+    body = text[o:c + 1]
+    new = ('%slet vt_v = %s.vt_chars_vec();\n%slet mut vt_parts: Vec<String> = Vec::new();\n%sfor %s in 0..vt_v.len() {\n'
+           '%s    let %s = &vt_v[%s];\n%s    let vt_e = %s;\n%s    vt_parts.push(vt_e);\n%s}\n%slet %s = vt_join_empty(&vt_parts);'
+           % (ind, cs, ind, ind, i, ind, cvar, i, ind, body, ind, ind, ind, name))
+    return text[:m.start()] + new + text[c + 1 + tail.end():], 1
+
+
+@rule('R24')
+def r24_string_add(text):
+    """A.to_string() + B   ->   vt_string_add(A.to_string(), B)      (`impl Add<&str> for String` = push_str)"""
+    pat = re.compile(r'("(?:[^"\\]|\\.)*"|%s(?:\.%s)*)\.to_string\(\) \+ (%s(?:\.%s)*)' % (IDENT, IDENT, IDENT, IDENT))
+    return pat.subn(lambda m: 'vt_string_add(%s.to_string(), %s)' % (m.group(1), m.group(2)), text)
+
+
+@rule('R25')
+def r25_assert_macro(text):
+    """assert!(COND, "message");   ->   if !(COND) { vt_panic(); }      (vt_panic requires false: the panic must be
+    unreachable under the contract's precondition; the message is dropped)"""
+    n = 0
+    while True:
+        m = re.search(r'assert!\(', text)
+        if not m:
+            break
+        o = m.end() - 1
+        c = _balanced(text, o, '(', ')')
+        inner = text[o + 1:c]
+        parts = _split_top(inner)
+        cond = parts[0].strip()
+        semi = re.match(r'\s*;', text[c + 1:])
+        end = c + 1 + (semi.end() if semi else 0)
+        text = text[:m.start()] + 'if !(%s) { vt_panic(); }' % ' '.join(cond.split()) + text[end:]
+        n += 1
+    return text, n
